@@ -181,6 +181,26 @@ def timeline(state):
     return [it for _, it in sorted(items, key=lambda p: p[0])]
 
 
+_HELD = {}
+
+
+def _held_test(rhs):
+    """rhs text of an assignment -> (normalised text, identifiers read) when it is a call / comparison whose truth a flag can hold, else None"""
+    if rhs not in _HELD:
+        res = None
+        if '(' in rhs or '=' in rhs or '<' in rhs or '>' in rhs:
+            try:
+                e = P._parse(rhs)
+                if P._strip(e)[0] in ('call', 'bin'):
+                    res = (P.show(e), {x[1] for x in P._cx.walk(e) if x[0] == 'id'})
+            except Exception:
+                res = None
+        if len(_HELD) > 5000:
+            _HELD.clear()
+        _HELD[rhs] = res
+    return _HELD[rhs]
+
+
 def with_flag_facts(items):
     """timeline items, plus — for a fact about a local that holds the unchanged result of a test (`int is_x = TEST(o); if (is_x)`) — the same fact about TEST(o)"""
     held = {}
@@ -191,12 +211,9 @@ def with_flag_facts(items):
             for v in [v for v, (txt, ids) in held.items() if it[1] in ids]:
                 del held[v]
             if isinstance(it[2], tuple) and it[2][0] == '=' and re.fullmatch(WORD, it[1] or ''):
-                try:
-                    e = P._parse(it[2][1])
-                except Exception:
-                    continue
-                if P._strip(e)[0] in ('call', 'bin'):
-                    held[it[1]] = (P.show(e), {x[1] for x in P._cx.walk(e) if x[0] == 'id'})
+                h = _held_test(it[2][1])
+                if h is not None:
+                    held[it[1]] = h
         elif it[0] == 'fact' and isinstance(it[2], bool) and it[1] in held:
             yield ('fact', held[it[1]][0], it[2])
 
